@@ -435,28 +435,25 @@ impl<K: CacheKey + 'static> AsyncCache<K> for MemoryCache<K> {
         #[cfg(feature = "verif-hooks")]
         crate::verif_hooks::sched_point("memory.put.before_insert");
 
+        // Account for the new entry before it becomes visible, so that a concurrent
+        // remove of this entry can never drive the counters below zero (a wrapped
+        // counter would make the next put believe the cache is over capacity).
+        self.entry_count.fetch_add(1, Ordering::Relaxed);
+        self.memory_usage
+            .fetch_add(size_bytes as u64, Ordering::Relaxed);
+
         // Insert or update entry
         if let Some(old_entry) = self.storage.insert(key, entry) {
             #[cfg(feature = "verif-hooks")]
             crate::verif_hooks::sched_point("memory.put.replaced.before_counters");
-            // Updating existing entry - adjust memory usage
-            let old_size = old_entry.size_bytes as u64;
-            let new_size = size_bytes as u64;
-
-            if new_size > old_size {
-                self.memory_usage
-                    .fetch_add(new_size - old_size, Ordering::Relaxed);
-            } else {
-                self.memory_usage
-                    .fetch_sub(old_size - new_size, Ordering::Relaxed);
-            }
+            // Replaced an existing entry - release its share
+            self.entry_count.fetch_sub(1, Ordering::Relaxed);
+            self.memory_usage
+                .fetch_sub(old_entry.size_bytes as u64, Ordering::Relaxed);
         } else {
-            // New entry
+            // New entry (already accounted for above)
             #[cfg(feature = "verif-hooks")]
             crate::verif_hooks::sched_point("memory.put.new.before_counters");
-            self.entry_count.fetch_add(1, Ordering::Relaxed);
-            self.memory_usage
-                .fetch_add(size_bytes as u64, Ordering::Relaxed);
         }
 
         self.metrics.record_put(size_bytes, start_time.elapsed());
